@@ -37,6 +37,7 @@ TREE = "src/pymoca/tree.py"
 ASTM = "src/pymoca/ast.py"
 
 SHARED = {"parent", "scope"}
+TYPED_FIELDS = {"scope"}  # pure back references: stores/reads are restricted to objects of the classes that declare them
 MUTATORS = {"append", "extend", "remove", "pop", "update", "insert", "clear", "setdefault", "add", "discard",
             "popitem", "sort", "reverse", "appendleft", "popleft", "__setitem__", "__delitem__"}
 VIEWS = {"values", "items", "keys"}
@@ -176,6 +177,7 @@ class Analysis:
         self.unknown_calls: Set[str] = set()
         self.callers: Dict[tuple, set] = defaultdict(set)
         self.fields: Dict[str, set] = defaultdict(set)
+        self._declaring: Dict[str, Set[str]] = {}
 
     # ------------------------------------------------------------------
     def _skip_fields(self) -> Set[str]:
@@ -221,6 +223,22 @@ class Analysis:
             self.ver[("fl", ao)] += 1
             self.changed = True
 
+    def declaring(self, field: str) -> Set[str]:
+        """AST classes (with their subclasses) whose __init__ assigns self.<field> — recomputed from ast.py on every run"""
+        if field not in self._declaring:
+            base = set()
+            for q, f in self.funcs.items():
+                if q.startswith("ast:") and f.node.name == "__init__" and f.cls:
+                    for n in ast.walk(f.node):
+                        if isinstance(n, ast.Attribute) and n.attr == field and isinstance(n.ctx, ast.Store) and isinstance(n.value, ast.Name) and n.value.id == "self":
+                            base.add(f.cls)
+            out = set(base)
+            for c in self.class_bases:
+                if set(self.mro(c)) & base:
+                    out.add(c)
+            self._declaring[field] = out
+        return self._declaring[field]
+
     def fields_of(self, ao):
         if self.reads is not None:
             self.reads.add(("fl", ao))
@@ -261,6 +279,8 @@ class Analysis:
             _seen.add((r, f))
             if r[0] == "o":
                 ao = r[1]
+                if f in TYPED_FIELDS and self.ao_class(ao) is not None and self.ao_class(ao) not in self.declaring(f):
+                    continue
                 if is_tree(ao):
                     out.add(("o", "T:PARENT" if f in ("parent", "root") else ao))
                 elif ao.startswith("D:"):
@@ -290,6 +310,7 @@ class Analysis:
                 else:
                     out.add(("c", ao, "*"))
                     out |= self.heapval.get((ao, "*"), set())
+                    out |= self.heapval.get((ao, "*." + f), set())
         return out
 
     def read_any_field(self, refs) -> set:
@@ -304,12 +325,15 @@ class Analysis:
                 out.add(("o", ao))
             if r[0] == "o":
                 for f in self.fields_of(ao):
-                    if f in self.skip_fields:
+                    if f in self.skip_fields or (f.startswith("*.") and f[2:] in self.skip_fields):
                         continue
                     out |= self.heapval.get((ao, f), set())
                 out.add(("c", ao, "**"))  # "some field's container of ao"
             else:
                 out |= self.heapval.get((ao, "*"), set())
+                for f in self.fields_of(ao):
+                    if f.startswith("*.") and f[2:] not in self.skip_fields:
+                        out |= self.heapval.get((ao, f), set())
                 out.add(("c", ao, "*"))
         return out
 
@@ -351,13 +375,19 @@ class Analysis:
         for r in receivers:
             if is_tree(r[1]):
                 continue
+            if attr in TYPED_FIELDS and r[0] == "o" and self.ao_class(r[1]) is not None and self.ao_class(r[1]) not in self.declaring(attr):
+                # the abstract receiver set is imprecise: an object allocated as <Cls> is never the receiver of a store into a
+                # field that only other classes declare (e.g. `.scope` exists on ClassModificationArgument only)
+                continue
             if r[0] == "o":
                 self.put_hv(r[1], attr, value)
             else:
                 if r[1].startswith("D:"):
                     self.put_hv(r[1], attr, value)
                 else:
-                    self.put_hv(r[1], "*", value)
+                    # attribute of SOME element held by a container of this object: kept per attribute name ("*.scope"),
+                    # so that a store into one attribute does not flow out of every other attribute of those elements
+                    self.put_hv(r[1], "*" if attr in ("?", "*") else "*." + attr, value)
 
     def store_elem(self, receivers, value, stmt, check=True):
         if check:
@@ -768,7 +798,7 @@ class Analysis:
             if is_tree(r[1]) or r[1].startswith("D:"):
                 out.add(("o", r[1]))
             for (a, fld), v in list(self.heapval.items()):
-                if a == r[1] and fld.split(".")[0] not in SHARED:
+                if a == r[1] and fld.split(".")[0] not in SHARED and not (fld.startswith("*.") and fld[2:] in SHARED):
                     out |= v
         return out
 
